@@ -248,12 +248,23 @@ impl<'a> Gen<'a> {
             1 => "ok:No/Such_Zone".to_string(),
             2 => format!("ok:{}", self.rng.pick(&self.named).to_lowercase()),
             // unusual answers of the host lookup (all "unknown name" faults)
-            3 => match self.rng.below(5) {
+            3 => match self.rng.below(6) {
                 0 => "ok:".to_string(),
                 1 => "ok:Etc/Unknown".to_string(),
                 2 => format!("ok:{}", "Very/".repeat(60)),
-                3 => "ok:Europe/Berlin ".to_string(),
-                _ => "ok:../../etc/passwd".to_string(),
+                3 => "ok:../../etc/passwd".to_string(),
+                _ => {
+                    // a real zone name, decorated the way environment
+                    // variables and files in /etc sometimes are
+                    let name = self.rng.pick(&self.named).clone();
+                    let prefix = *self.rng.pick(&["", "", ":", " ", "/", "./", "\t", "TZ="]);
+                    let suffix = *self.rng.pick(&["", "", " ", "\n", "\0", "/", ",M3.2.0"]);
+                    if prefix.is_empty() && suffix.is_empty() {
+                        format!("ok: {name}")
+                    } else {
+                        format!("ok:{prefix}{name}{suffix}")
+                    }
+                }
             },
             _ => format!("ok:{}", self.rng.pick(&self.named)),
         };
@@ -271,7 +282,7 @@ impl<'a> Gen<'a> {
         let bad_clock = o.clock.first().map(|c| *c < 0 || *c > NS_MAX).unwrap_or(false);
         let bad_host = match o.host.strip_prefix("ok:") {
             None => true,
-            Some(name) => crate::simenv::sim().image.zone(name).is_none(),
+            Some(name) => !crate::simenv::sim().image.resolves(name),
         };
         bad_clock || bad_host
     }
